@@ -7,11 +7,16 @@ package gojq
 // what is emitted before the transfer, is decided per combination.
 
 var c01Interceptors = []string{
-	`try (%) catch "c"`, `(%)?`, `. as [$a] ?// $a | [$a], (%)`, `(%) // "alt"`, `first(%)`, `[limit(2; %)]`, `isempty(%)`, `[%]`,
-	`. as [$a] ?// {a: $a} ?// $a | [$a], (%)`, `reduce (%) as $v (0; . + 1)`, `[foreach (%) as $v (0; . + 1)]`, `def f(g): . as [$a] ?// $b | [$a, $b], g; f(%)`,
+	`try (%) catch "c"`, `(%)?`, `. as [$a] ?// $a | [$a], (%)`, `(%) // "alt"`, `first(%)`, `[limit(2; %)]`, `. as {$a} ?// $a | [$a], (%)`, `[%]`,
+	`. as [$a] ?// {a: $a} ?// $a | [$a], (%)`, `reduce (%) as $v (0; . + 1)`, `isempty(%)`, `def f(g): . as [$a] ?// $b | [$a, $b], g; f(%)`,
+	`[foreach (%) as $v (0; . + 1)]`, `.[]? as {$a, b: [$b]} ?// [$b] ?// $a | [$a, $b], (%)`,
 	`(%) as $v | [$v]`, `"\(%)"`, `{a: (%)}`, `if (%) then 1 else 2 end`, `[.[]? | %]`, `def f(g): try g catch "fc"; f(%)`, `(%) as [$p] ?// $p | [$p]`, `[(%) | . as [$a] ?// $a | $a]`,
-	`try (%) catch (., break $l)`, `(try (%) catch error)?`, `last(%)`, `[limit(1; (%), 7)]`, `nth(1; %)`, `[range(2) as $i | %]`, `((%), 8) // 9`, `(% | not) // "n"`,
+	`try (%) catch (., break $l)`, `(try (%) catch error)?`, `last(%)`, `[limit(1; (%), 7)]`, `nth(1; %)`, `[range(2) as $i | %]`, `((%), 8) // 9`, `(% | not) // "n"`, `(%) as {$a} ?// [$a] | [$a]`,
 }
+
+// what happens downstream of the interceptor: nothing, or a consumer that fails on some
+// outputs (an error raised downstream must not be intercepted by a construct upstream)
+var c01Downs = []string{`%`, `(%) | if . == 1 or . == null then error("down") else . end`, `[(%) | if . == 1 then error("down") else . end]`, `(%) | (., error("down2"))`}
 
 var c01Raisers = []string{
 	`break $l`, `error`, `error("x")`, `empty`, `1, break $l`, `1, error, 2`, `., break $l, 3`, `first(1, error)`, `(1, 2) | if . == 2 then break $l else . end`, `error(null)`,
@@ -20,12 +25,12 @@ var c01Raisers = []string{
 
 var c01Outers = []string{`label $l | %`, `[label $l | %]`, `label $l | (%), 9`, `try (label $l | %) catch "oc"`, `first(label $l | %)`, `[.[]? | label $l | %]`, `label $l | label $k | %, break $k`}
 
-func vmemo_c01Ctl(o, i, j, r int) string {
+func vmemo_c01Ctl(o, d, i, j, r int) string {
 	body := c04FillC01(c01Interceptors[i], c01Raisers[r])
 	if j >= 0 {
 		body = c04FillC01(c01Interceptors[j], body)
 	}
-	return c04FillC01(c01Outers[o], body)
+	return c04FillC01(c01Outers[o], c04FillC01(c01Downs[d], body))
 }
 
 func c04FillC01(ctx, body string) string {
@@ -40,18 +45,16 @@ func c04FillC01(ctx, body string) string {
 	return out
 }
 
-// H_C01_ctl: one interceptor (quick) or two nested interceptors (thorough, nest=1).
+// H_C01_ctl: outer context x downstream consumer x one or two nested interceptors x raiser.
+// Quick: the leading entries of each table; thorough (full=1): the whole product.
 func H_C01_ctl() {
-	no, ni, nr := 4, 12, 12
+	no, nd, ni, nj, nr := 3, 2, 14, 5, 12
 	if vparam("full", 0) == 1 {
-		no, ni, nr = len(c01Outers), len(c01Interceptors), len(c01Raisers)
+		no, nd, ni, nj, nr = len(c01Outers), len(c01Downs), len(c01Interceptors), len(c01Interceptors)+1, len(c01Raisers)
 	}
-	o, i, r := nondetChoice(no), nondetChoice(ni), nondetChoice(nr)
-	j := -1
-	if vparam("nest", 0) == 1 {
-		j = nondetChoice(ni)
-	}
-	src := vmemo_c01Ctl(o, i, j, r)
+	o, d, i, r := nondetChoice(no), nondetChoice(nd), nondetChoice(ni), nondetChoice(nr)
+	j := nondetChoice(nj) - 1 // -1: a single interceptor; otherwise a second one around it
+	src := vmemo_c01Ctl(o, d, i, j, r)
 	vlabel("prog", src)
 	q := vmemo_parse(src)
 	code := vmemo_compile(src)
@@ -141,4 +144,108 @@ func H_C01_scope() {
 		return
 	}
 	c01Compare(src, q, code, []any{hSmallInt(), []any{1}})
+}
+
+// ---- destructuring alternatives: pattern x pattern (x pattern) x body x input ----
+
+var c01Pats = []string{`$a`, `[$a]`, `{a: $a}`, `{$a}`, `{$a: [$c]}`, `[$a, $b]`, `{"a": $b}`, `{$a, b: [$b]}`, `[[$a]]`, `{a: {$b}}`, `{$b: {$c}}`, `[$b, [$a]]`, `{$a, $b}`, `{("a", "b"): $c}`}
+
+func c01PatInput(k int) any {
+	x := hSmallInt() // symbolic leaf: null tests and comparisons in the bodies are solver-decided
+	switch k {
+	case 0:
+		return map[string]any{"a": x}
+	case 1:
+		return map[string]any{"a": []any{x}}
+	case 2:
+		return []any{x, []any{2}}
+	case 3:
+		return []any{[]any{x}}
+	case 4:
+		return map[string]any{"a": "s", "b": []any{x}}
+	case 5:
+		return x
+	case 6:
+		return nil
+	default:
+		return map[string]any{"a": map[string]any{"b": x}, "b": map[string]any{"c": 4}}
+	}
+}
+
+const c01NPatInputs = 8
+
+func c01PatVars(ps ...string) string {
+	seen := ""
+	out := ""
+	for _, p := range ps {
+		for i := 0; i+1 < len(p); i++ {
+			if p[i] == '$' {
+				v := p[i : i+2]
+				dup := false
+				for k := 0; k+1 < len(seen); k += 2 {
+					if seen[k:k+2] == v {
+						dup = true
+					}
+				}
+				if !dup {
+					seen += v
+					if out != "" {
+						out += ", "
+					}
+					out += v
+				}
+			}
+		}
+	}
+	return out
+}
+
+func vmemo_c01Pat(p1, p2, p3, body, form int) string {
+	pats := c01Pats[p1] + " ?// " + c01Pats[p2]
+	vars := c01PatVars(c01Pats[p1], c01Pats[p2])
+	if p3 >= 0 {
+		pats += " ?// " + c01Pats[p3]
+		vars = c01PatVars(c01Pats[p1], c01Pats[p2], c01Pats[p3])
+	}
+	first := vars[:2]
+	b := []string{
+		`[` + vars + `]`,
+		`[` + vars + `], error("x")`,
+		`if ` + first + ` != null then error("y") else [` + vars + `] end`,
+		`[` + vars + `] | if .[0] != null then error("z") else . end`,
+	}[body]
+	if form == 0 {
+		return `. as ` + pats + ` | ` + b
+	}
+	return `[.[] as ` + pats + ` | ` + b + `]?`
+}
+
+// H_C01_pat: every pair (thorough: triple) of pattern shapes under `?//`, bodies that read
+// every variable and abandon an alternative after it bound something, single inputs and
+// generators (a variable must not keep a value from an abandoned alternative or from an
+// earlier iteration).
+func H_C01_pat() {
+	n := len(c01Pats)
+	p1, p2 := nondetChoice(n), nondetChoice(n)
+	p3 := -1
+	if vparam("full", 0) == 1 && nondetBool() {
+		p3 = nondetChoice(n)
+	}
+	body, form := nondetChoice(4), nondetChoice(2)
+	src := vmemo_c01Pat(p1, p2, p3, body, form)
+	vlabel("prog", src)
+	q := vmemo_parse(src)
+	code := vmemo_compile(src)
+	if q == nil || code == nil {
+		vreach("compile-error")
+		return
+	}
+	var input any
+	if form == 0 {
+		input = c01PatInput(nondetChoice(c01NPatInputs))
+	} else {
+		k := nondetChoice(c01NPatInputs)
+		input = []any{c01PatInput(k), c01PatInput((k + 3) % c01NPatInputs), c01PatInput((k + 5) % c01NPatInputs)}
+	}
+	c01Compare(src, q, code, input)
 }
